@@ -66,7 +66,7 @@ def run(ck):
         takes = [cs for cs in T.calls(b, name=("take", "as_ref", "is_some", "clone", "as_mut")) if T.path_has(b, cs.args[0], ".poller") or (q != "Generic::unwrap" and T.path_has(b, cs.args[0], ".file"))]
         none_edges = []
         for sw in T.switches_on_expr(b, lambda e: e[0] == "discr"):
-            e = b.expr(b.blocks[sw]["term"]["on"])
+            e = b.expr(b.blocks[sw]["term"]["on"], at=sw)
             if any(T.tainted_by_call(b, {"c": e[2]}, [tk.bb]) for tk in takes):
                 none_edges += T.discr_edges(b, sw, 0)
         if not rs or not any(T.path_has(b, tk.args[0], ".poller") for tk in takes):
